@@ -580,3 +580,109 @@ package decimal128
 //@ call RoundingMode.reduce192: V = Vd + Vo
 //@ call RoundingMode.reduce128: V = ite(Vd >= Vo, Vd - Vo, Vo - Vd)
 //@ props C01 C19 C20
+
+// Exported addition and subtraction: operand-class table (C15) plus the value-level contract of add (C01).
+//@ func Decimal.AddWithMode
+//@ returns (r)
+//@ logical Vd real, Vo real
+//@ requires mode <= 5
+//@ requires !special(d) && !special(o) ==> Vd >= 0 && Vo >= 0 && rs(Vd, bexp(d)) == coef(d) && rs(Vo, bexp(o)) == coef(o)
+//@ ensures isnan(d) ==> r == d
+//@ ensures !isnan(d) && isnan(o) ==> r == o
+//@ ensures isinf(d) && isinf(o) && sign(d) != sign(o) ==> isnan(r) && !sign(r) && hi(r) == 0x7c00000000000000
+//@    && lo(r) == payloadOpAdd + 256*ite(sign(d), payloadValNegInfinite, payloadValPosInfinite) + 65536*ite(!sign(d), payloadValNegInfinite, payloadValPosInfinite)
+//@ ensures isinf(d) && !isnan(o) && !(isinf(o) && sign(d) != sign(o)) ==> isinf(r) && sign(r) == sign(d) && lo(r) == 0
+//@ ensures !special(d) && isinf(o) ==> isinf(r) && sign(r) == sign(o) && lo(r) == 0
+//@ ensures !special(d) && !special(o) && coef(d) == 0 && coef(o) == 0 ==> !special(r) && coef(r) == 0 && (sign(r) == (sign(d) && (sign(o) != false)))
+//@ ensures !special(d) && !special(o) && coef(d) == 0 && coef(o) != 0 ==> !special(r) && coef(r) == coef(o) && bexp(r) == bexp(o) && sign(r) == (sign(o) != false)
+//@ ensures !special(d) && !special(o) && coef(d) != 0 && coef(o) == 0 ==> r == d
+//@ ensures !special(d) && !special(o) && coef(d) != 0 && coef(o) != 0 && sign(d) == (sign(o) != false) ==> sign(r) == sign(d) && !isnan(r)
+//@    && (isinf(r) ==> Ovf(mode, sign(r), rs(Vd, 12287) + rs(Vo, 12287)))
+//@    && (!special(r) ==> RndOK(mode, sign(r), rs(Vd, bexp(r)) + rs(Vo, bexp(r)), coef(r), bexp(r)))
+//@ ensures !special(d) && !special(o) && coef(d) != 0 && coef(o) != 0 && sign(d) != (sign(o) != false) && Vd == Vo ==> !special(r) && coef(r) == 0 && sign(r) == (mode == 4)
+//@ ensures !special(d) && !special(o) && coef(d) != 0 && coef(o) != 0 && sign(d) != (sign(o) != false) && Vd > Vo ==> sign(r) == sign(d) && !isnan(r)
+//@    && (isinf(r) ==> Ovf(mode, sign(r), rs(Vd, 12287) - rs(Vo, 12287)))
+//@    && (!special(r) ==> RndOK(mode, sign(r), rs(Vd, bexp(r)) - rs(Vo, bexp(r)), coef(r), bexp(r)))
+//@ ensures !special(d) && !special(o) && coef(d) != 0 && coef(o) != 0 && sign(d) != (sign(o) != false) && Vd < Vo ==> sign(r) == !sign(d) && !isnan(r)
+//@    && (isinf(r) ==> Ovf(mode, sign(r), rs(Vo, 12287) - rs(Vd, 12287)))
+//@    && (!special(r) ==> RndOK(mode, sign(r), rs(Vo, bexp(r)) - rs(Vd, bexp(r)), coef(r), bexp(r)))
+//@ props C01 C15 C19 C20
+
+//@ func Decimal.SubWithMode
+//@ returns (r)
+//@ logical Vd real, Vo real
+//@ requires mode <= 5
+//@ requires !special(d) && !special(o) ==> Vd >= 0 && Vo >= 0 && rs(Vd, bexp(d)) == coef(d) && rs(Vo, bexp(o)) == coef(o)
+//@ ensures isnan(d) ==> r == d
+//@ ensures !isnan(d) && isnan(o) ==> r == o
+//@ ensures isinf(d) && isinf(o) && sign(d) == sign(o) ==> isnan(r) && !sign(r) && hi(r) == 0x7c00000000000000
+//@    && lo(r) == payloadOpSub + 256*ite(sign(d), payloadValNegInfinite, payloadValPosInfinite) + 65536*ite(sign(d), payloadValNegInfinite, payloadValPosInfinite)
+//@ ensures isinf(d) && !isnan(o) && !(isinf(o) && sign(d) == sign(o)) ==> isinf(r) && sign(r) == sign(d) && lo(r) == 0
+//@ ensures !special(d) && isinf(o) ==> isinf(r) && sign(r) == !sign(o) && lo(r) == 0
+//@ ensures !special(d) && !special(o) && coef(d) == 0 && coef(o) == 0 ==> !special(r) && coef(r) == 0 && (sign(r) == (sign(d) && (sign(o) != true)))
+//@ ensures !special(d) && !special(o) && coef(d) == 0 && coef(o) != 0 ==> !special(r) && coef(r) == coef(o) && bexp(r) == bexp(o) && sign(r) == (sign(o) != true)
+//@ ensures !special(d) && !special(o) && coef(d) != 0 && coef(o) == 0 ==> r == d
+//@ ensures !special(d) && !special(o) && coef(d) != 0 && coef(o) != 0 && sign(d) == (sign(o) != true) ==> sign(r) == sign(d) && !isnan(r)
+//@    && (isinf(r) ==> Ovf(mode, sign(r), rs(Vd, 12287) + rs(Vo, 12287)))
+//@    && (!special(r) ==> RndOK(mode, sign(r), rs(Vd, bexp(r)) + rs(Vo, bexp(r)), coef(r), bexp(r)))
+//@ ensures !special(d) && !special(o) && coef(d) != 0 && coef(o) != 0 && sign(d) != (sign(o) != true) && Vd == Vo ==> !special(r) && coef(r) == 0 && sign(r) == (mode == 4)
+//@ ensures !special(d) && !special(o) && coef(d) != 0 && coef(o) != 0 && sign(d) != (sign(o) != true) && Vd > Vo ==> sign(r) == sign(d) && !isnan(r)
+//@    && (isinf(r) ==> Ovf(mode, sign(r), rs(Vd, 12287) - rs(Vo, 12287)))
+//@    && (!special(r) ==> RndOK(mode, sign(r), rs(Vd, bexp(r)) - rs(Vo, bexp(r)), coef(r), bexp(r)))
+//@ ensures !special(d) && !special(o) && coef(d) != 0 && coef(o) != 0 && sign(d) != (sign(o) != true) && Vd < Vo ==> sign(r) == !sign(d) && !isnan(r)
+//@    && (isinf(r) ==> Ovf(mode, sign(r), rs(Vo, 12287) - rs(Vd, 12287)))
+//@    && (!special(r) ==> RndOK(mode, sign(r), rs(Vo, bexp(r)) - rs(Vd, bexp(r)), coef(r), bexp(r)))
+//@ props C01 C15 C19 C20
+
+//@ func Decimal.Add
+//@ returns (r)
+//@ logical Vd real, Vo real
+//@ requires DefaultRoundingMode <= 5
+//@ requires !special(d) && !special(o) ==> Vd >= 0 && Vo >= 0 && rs(Vd, bexp(d)) == coef(d) && rs(Vo, bexp(o)) == coef(o)
+//@ ensures isnan(d) ==> r == d
+//@ ensures !isnan(d) && isnan(o) ==> r == o
+//@ ensures isinf(d) && isinf(o) && sign(d) != sign(o) ==> isnan(r) && !sign(r) && hi(r) == 0x7c00000000000000
+//@    && lo(r) == payloadOpAdd + 256*ite(sign(d), payloadValNegInfinite, payloadValPosInfinite) + 65536*ite(!sign(d), payloadValNegInfinite, payloadValPosInfinite)
+//@ ensures isinf(d) && !isnan(o) && !(isinf(o) && sign(d) != sign(o)) ==> isinf(r) && sign(r) == sign(d) && lo(r) == 0
+//@ ensures !special(d) && isinf(o) ==> isinf(r) && sign(r) == sign(o) && lo(r) == 0
+//@ ensures !special(d) && !special(o) && coef(d) == 0 && coef(o) == 0 ==> !special(r) && coef(r) == 0 && (sign(r) == (sign(d) && (sign(o) != false)))
+//@ ensures !special(d) && !special(o) && coef(d) == 0 && coef(o) != 0 ==> !special(r) && coef(r) == coef(o) && bexp(r) == bexp(o) && sign(r) == (sign(o) != false)
+//@ ensures !special(d) && !special(o) && coef(d) != 0 && coef(o) == 0 ==> r == d
+//@ ensures !special(d) && !special(o) && coef(d) != 0 && coef(o) != 0 && sign(d) == (sign(o) != false) ==> sign(r) == sign(d) && !isnan(r)
+//@    && (isinf(r) ==> Ovf(DefaultRoundingMode, sign(r), rs(Vd, 12287) + rs(Vo, 12287)))
+//@    && (!special(r) ==> RndOK(DefaultRoundingMode, sign(r), rs(Vd, bexp(r)) + rs(Vo, bexp(r)), coef(r), bexp(r)))
+//@ ensures !special(d) && !special(o) && coef(d) != 0 && coef(o) != 0 && sign(d) != (sign(o) != false) && Vd == Vo ==> !special(r) && coef(r) == 0 && sign(r) == (DefaultRoundingMode == 4)
+//@ ensures !special(d) && !special(o) && coef(d) != 0 && coef(o) != 0 && sign(d) != (sign(o) != false) && Vd > Vo ==> sign(r) == sign(d) && !isnan(r)
+//@    && (isinf(r) ==> Ovf(DefaultRoundingMode, sign(r), rs(Vd, 12287) - rs(Vo, 12287)))
+//@    && (!special(r) ==> RndOK(DefaultRoundingMode, sign(r), rs(Vd, bexp(r)) - rs(Vo, bexp(r)), coef(r), bexp(r)))
+//@ ensures !special(d) && !special(o) && coef(d) != 0 && coef(o) != 0 && sign(d) != (sign(o) != false) && Vd < Vo ==> sign(r) == !sign(d) && !isnan(r)
+//@    && (isinf(r) ==> Ovf(DefaultRoundingMode, sign(r), rs(Vo, 12287) - rs(Vd, 12287)))
+//@    && (!special(r) ==> RndOK(DefaultRoundingMode, sign(r), rs(Vo, bexp(r)) - rs(Vd, bexp(r)), coef(r), bexp(r)))
+//@ props C01 C15 C19 C20
+
+//@ func Decimal.Sub
+//@ returns (r)
+//@ logical Vd real, Vo real
+//@ requires DefaultRoundingMode <= 5
+//@ requires !special(d) && !special(o) ==> Vd >= 0 && Vo >= 0 && rs(Vd, bexp(d)) == coef(d) && rs(Vo, bexp(o)) == coef(o)
+//@ ensures isnan(d) ==> r == d
+//@ ensures !isnan(d) && isnan(o) ==> r == o
+//@ ensures isinf(d) && isinf(o) && sign(d) == sign(o) ==> isnan(r) && !sign(r) && hi(r) == 0x7c00000000000000
+//@    && lo(r) == payloadOpSub + 256*ite(sign(d), payloadValNegInfinite, payloadValPosInfinite) + 65536*ite(sign(d), payloadValNegInfinite, payloadValPosInfinite)
+//@ ensures isinf(d) && !isnan(o) && !(isinf(o) && sign(d) == sign(o)) ==> isinf(r) && sign(r) == sign(d) && lo(r) == 0
+//@ ensures !special(d) && isinf(o) ==> isinf(r) && sign(r) == !sign(o) && lo(r) == 0
+//@ ensures !special(d) && !special(o) && coef(d) == 0 && coef(o) == 0 ==> !special(r) && coef(r) == 0 && (sign(r) == (sign(d) && (sign(o) != true)))
+//@ ensures !special(d) && !special(o) && coef(d) == 0 && coef(o) != 0 ==> !special(r) && coef(r) == coef(o) && bexp(r) == bexp(o) && sign(r) == (sign(o) != true)
+//@ ensures !special(d) && !special(o) && coef(d) != 0 && coef(o) == 0 ==> r == d
+//@ ensures !special(d) && !special(o) && coef(d) != 0 && coef(o) != 0 && sign(d) == (sign(o) != true) ==> sign(r) == sign(d) && !isnan(r)
+//@    && (isinf(r) ==> Ovf(DefaultRoundingMode, sign(r), rs(Vd, 12287) + rs(Vo, 12287)))
+//@    && (!special(r) ==> RndOK(DefaultRoundingMode, sign(r), rs(Vd, bexp(r)) + rs(Vo, bexp(r)), coef(r), bexp(r)))
+//@ ensures !special(d) && !special(o) && coef(d) != 0 && coef(o) != 0 && sign(d) != (sign(o) != true) && Vd == Vo ==> !special(r) && coef(r) == 0 && sign(r) == (DefaultRoundingMode == 4)
+//@ ensures !special(d) && !special(o) && coef(d) != 0 && coef(o) != 0 && sign(d) != (sign(o) != true) && Vd > Vo ==> sign(r) == sign(d) && !isnan(r)
+//@    && (isinf(r) ==> Ovf(DefaultRoundingMode, sign(r), rs(Vd, 12287) - rs(Vo, 12287)))
+//@    && (!special(r) ==> RndOK(DefaultRoundingMode, sign(r), rs(Vd, bexp(r)) - rs(Vo, bexp(r)), coef(r), bexp(r)))
+//@ ensures !special(d) && !special(o) && coef(d) != 0 && coef(o) != 0 && sign(d) != (sign(o) != true) && Vd < Vo ==> sign(r) == !sign(d) && !isnan(r)
+//@    && (isinf(r) ==> Ovf(DefaultRoundingMode, sign(r), rs(Vo, 12287) - rs(Vd, 12287)))
+//@    && (!special(r) ==> RndOK(DefaultRoundingMode, sign(r), rs(Vo, bexp(r)) - rs(Vd, bexp(r)), coef(r), bexp(r)))
+//@ props C01 C15 C19 C20
+
